@@ -189,6 +189,13 @@ void harness(void) {
     } else {
         VWITNESS("ran-into-end-of-data");
     }
+    /* second lemma, the one the CR | LF allowance rests on: the LF left behind when a line was executed at its CR is an
+     * empty message of exactly one byte whatever follows it - it runs nothing, raises nothing and leaves nothing pending */
+    if (b2[0] == '\n') {
+        VASSERT(r2 == 1 && s2.termination == SCPI_MESSAGE_TERMINATION_NL, "C08 an LF at the start of the pending data (left over from a CR | LF split) is an empty message of exactly one byte");
+        VASSERT(s2.programHeader.len == 0 && s2.programHeader.type != SCPI_TOKEN_INVALID && s2.numberOfParameters == 0, "C08 the left-over LF executes nothing and raises nothing");
+        VWITNESS("leading-lf");
+    }
     VWITNESS("end");
 }
 #else
